@@ -2,7 +2,7 @@
 import random
 
 from harness.runner import BCheck
-from scenario import phasing as PH, vcf as V
+from scenario import pedigree as PED, phasing as PH, vcf as V
 
 LEVEL = "exploration"
 LEVEL_TEXT = ("Deductive part (vcgen/z3, all inputs, over the axiomatised pysam model): PhasedVcfWriter._remove_existing_phasing clears HP and PS and every phase bit of the target samples' calls, sorts fully known genotypes (same allele multiset), leaves partially missing / absent genotypes, the calls of non-target samples and the FORMAT keys exactly as they were (contracts/vcf_py.py). "
@@ -34,6 +34,11 @@ class PassThrough(BCheck):
         n = 3000 if tier == "quick" else 50000
         for i in range(n):
             r = random.Random(rng.getrandbits(64))
+            if i % 6 == 5:
+                # pedigree mode: family members are homozygous at sites where others are heterozygous (genetic phasing phases without reads)
+                g = PED.generate(r, families=r.choice([("trio",), ("quartet",)]), unrelated=r.choice([0, 1]), k_files=(0, 2), crossover=0.1)
+                yield dict(main_vcf=g["main_vcf"], phase_vcfs=g["phase_vcfs"], tag="PS" if i % 4 else "HP", samples=[], chromosomes=[], only_snvs=False, ped=g["ped"])
+                continue
             pre = "PS" if i % 4 == 3 else None
             g = PH.generate(r, main_kwargs=dict(n_samples=(1, 3), phasing=pre, n_records=(4, 10), duplicates=0.3 if i % 3 == 0 else 0.1))
             sc = g["scenario"]
@@ -49,13 +54,13 @@ class PassThrough(BCheck):
                        only_snvs=(r.random() < 0.4))
 
     def nontrivial(self, inp):
-        return len(inp["phase_vcfs"]) > 0 and inp["main_vcf"].count("\n") > 8
+        return (len(inp["phase_vcfs"]) > 0 or inp.get("ped") is not None) and inp["main_vcf"].count("\n") > 8
 
     def check(self, inp):
         from runtime.phase_driver import run_phase
         from runtime.vcfdiff import compare_phase_output
         res = run_phase(inp["main_vcf"], inp["phase_vcfs"], tag=inp["tag"], samples=inp["samples"] or None,
-                        chromosomes=inp["chromosomes"] or None, only_snvs=inp["only_snvs"])
+                        chromosomes=inp["chromosomes"] or None, only_snvs=inp["only_snvs"], ped=inp.get("ped"))
         if res["error"]:
             return dict(expected="run_whatshap succeeds", observed=res["error"], traceback=res.get("traceback"))
         return compare_phase_output(inp["main_vcf"], res["out"], inp["tag"], inp["samples"], inp["chromosomes"], only_snvs=inp["only_snvs"])
